@@ -183,6 +183,16 @@ def install(I, M, attractor_model=None):
                 if I.truth(M.independent_of_copies(b)): return Agg('Option', 1, [b])
                 return Agg('Option', 0, [])
             return NotImplemented
+        if '_impl_bdd_variable_set' in f and name == 'var_by_name':
+            # the BDD variable set holds the state variables, their k auxiliary copies "<var>_extra_<j>" and the parameter
+            # variables (names with brackets: never equal to an identifier of the formula language, not enumerated)
+            I.models_used.add('BddVariableSet::var_by_name')
+            key = gg(args[1])
+            for i, nm in enumerate(M.names):
+                for j in range(M.k + 1):
+                    full = nm if j == 0 else f'{nm}_extra_{j - 1}'
+                    if I.truth(I.equal(key, RStr([ord(ch) for ch in full]))): return Agg('Option', 1, [M.pos(i, j)])
+            return Agg('Option', 0, [])
         if '_impl_bdd_variable_set' in f and name == 'mk_var_by_name':
             I.models_used.add('BddVariableSet::mk_var_by_name')
             nm = gg(args[1])
